@@ -152,7 +152,56 @@ func (w *World) contractFor(fn *ssa.Function) *Contract {
 	if c, ok := w.ss.Contracts[externKey(fn)]; ok {
 		return c
 	}
-	return nil
+	return w.assumedPure(fn)
+}
+
+// Package-level functions of these standard-library packages have no effect on the modelled
+// state (they compute a result from their arguments; a returned slice or string is either
+// part of an argument or freshly allocated).  A call of one that has no explicit contract is
+// treated as pure with an unconstrained result instead of as a call with unknown effects, so
+// that swapping in a modern library call (strings.Cut, bytes.TrimLeft, slices.IndexFunc, ...)
+// does not lose the frame of the caller.  Each use is listed in the evidence as an assumption.
+var pureStdPkgs = map[string]bool{"strings": true, "bytes": true, "strconv": true, "unicode": true, "unicode/utf8": true,
+	"slices": true, "maps": true, "cmp": true, "math": true, "math/bits": true, "path": true, "sort": true, "errors": true}
+
+// functions of those packages that do write through an argument or call back into the module
+var impureStd = map[string]bool{"slices.Sort": true, "slices.SortFunc": true, "slices.SortStableFunc": true, "slices.Reverse": true,
+	"slices.Delete": true, "slices.DeleteFunc": true, "slices.Insert": true, "slices.Compact": true, "slices.CompactFunc": true,
+	"slices.Replace": true, "slices.Grow": true, "slices.Clip": true, "maps.Copy": true, "maps.DeleteFunc": true,
+	"sort.Sort": true, "sort.Stable": true, "sort.Slice": true, "sort.SliceStable": true, "sort.Strings": true, "sort.Ints": true,
+	"sort.Search": true, "slices.IndexFunc": false, "strconv.AppendInt": true, "strconv.AppendQuote": true, "utf8.AppendRune": true,
+	"unicode/utf8.AppendRune": true, "unicode/utf8.EncodeRune": true, "bytes.NewBuffer": true, "bytes.NewBufferString": true}
+
+var assumedPureCache = map[string]*Contract{}
+
+func (w *World) assumedPure(fn *ssa.Function) *Contract {
+	if fn == nil || fn.Signature.Recv() != nil {
+		return nil
+	}
+	if o := fn.Origin(); o != nil {
+		fn = o
+	}
+	if fn.Pkg == nil || !pureStdPkgs[fn.Pkg.Pkg.Path()] {
+		return nil
+	}
+	key := fn.Pkg.Pkg.Path() + "." + fn.Name()
+	if impureStd[key] {
+		return nil
+	}
+	// a function-typed parameter means a call-back (IndexFunc, ContainsFunc, TrimFunc): only
+	// those whose call-back is itself without effect are safe; the module passes closures over
+	// its own state nowhere in the verified set, but stay conservative
+	for i := 0; i < fn.Signature.Params().Len(); i++ {
+		if _, isFn := fn.Signature.Params().At(i).Type().Underlying().(*types.Signature); isFn {
+			return nil
+		}
+	}
+	if c, ok := assumedPureCache[key]; ok {
+		return c
+	}
+	c := &Contract{Key: "(assumed pure, result unconstrained) " + key, Extern: true, Pure: true, ModSet: true, Loops: map[int]*LoopSpec{}}
+	assumedPureCache[key] = c
+	return c
 }
 
 // contractForIn: an extern contract written in the caller's package contract file
